@@ -250,7 +250,35 @@ def check(repo, rep):
     dfn = cx.fn('core', 'AudioRegion.__truediv__')
     dn = ('p', dfn.args.args[1].arg)
     tguards = [l for l in dl if l.outcome == 'raise']
-    rep.ob('dividing by a non-int or non-positive n raises TypeError', len(tguards) >= 2 and all(exc_name(l) == 'TypeError' for l in tguards), W(dfn), 'AudioRegion.__truediv__:guards', 'raising paths: %d' % len(tguards), loop_rule=True)
+    # every divisor that is not a positive int is taken through the conditions on n of every path: each path it can take raises TypeError
+    from ..semantic import evaluator as _ev17
+    from ..termeval import NotEvaluable as _NE17
+    badpath = None
+    for bad in (1.5, 'a', None, 0, -1, -3, 0.0, 2.0):
+        took = 0
+        for l in dl:
+            consistent = True
+            for ct, tr, _ in l.conds:
+                if not any(x == dn for x in walk(ct)):
+                    continue
+                try:
+                    e_ = _ev17({dn: bad})
+                    got = e_.ev(ct)
+                except _NE17:
+                    continue
+                if e_.leaves:
+                    continue
+                if bool(got) != tr:
+                    consistent = False
+                    break
+            if consistent:
+                took += 1
+                if not (l.outcome == 'raise' and exc_name(l) == 'TypeError') and badpath is None:
+                    badpath = (l, 'n = %r can take a path that %s' % (bad, 'raises %s' % exc_name(l) if l.outcome == 'raise' else 'does not raise'))
+        if not took and badpath is None:
+            badpath = (None, 'no path applies to n = %r' % (bad,))
+    rep.ob('dividing by a non-int or non-positive n raises TypeError', badpath is None and len(tguards) >= 1, W(badpath[0].node) if badpath and badpath[0] is not None and badpath[0].node is not None else W(dfn), 'AudioRegion.__truediv__:guards',
+           badpath[1] if badpath else 'raising paths: %d' % len(tguards), loop_rule=True)
     # every positive int divisor is accepted: the conditions of the raising paths that mention n are evaluated for n = 1, 2, 7
     from ..semantic import evaluator, Undecided
     from ..termeval import NotEvaluable
